@@ -1107,7 +1107,7 @@ func (e *Exec) execAlloc(x *ssa.Alloc, st *State) {
 	if isStruct(t) {
 		st.heap = c.storeStruct(st.heap, r, t, c.zero(t))
 		e.initLocks(st, r, t)
-		if c.isImmutableType(t) {
+		if c.isImmutableType(t) || c.CS.TypeInvs["*"+typeString(t)] != nil || c.CS.TypeInvs[typeString(t)] != nil {
 			c.compSort["$unpub"] = "(Array Ref Bool)"
 			st.heap = c.hstore(st.heap, "$unpub", r, "true")
 		}
